@@ -61,7 +61,7 @@ def spec_history(env, argv, ops, handoff=False):
         elif kind == 'disable':
             st = False
             out.append(['unit'])
-        elif kind == 'decorate':
+        elif kind in ('decorate', 'decorate_ghost'):
             k += 1
             if st is None:
                 st = req
@@ -287,6 +287,16 @@ def subops_cases(tier):
         for wc in ALL_WC:
             out.append(dict(env=None, args=[], ops=ops, wc=wc))
     out.append(dict(env='1', args=[], ops=[['disable', None], ['decorate', None], ['enable', None]], wc=ALL_WC[15]))
+    # the report options (show_config) and what is in the profiler: a decorated, never-called function without a source file
+    shows = [dict(stripzeros=0), dict(stripzeros=0, details=1), dict(details=1, rich=0), dict(sort=0, summarize=0)]
+    for ops in ([['enable', None], ['decorate_ghost', None]], [['enable', None], ['decorate_ghost', None], ['decorate', None]]):
+        for show in (shows if tier == 'thorough' else shows[:2]):
+            for wc in (ALL_WC if tier == 'thorough' else [ALL_WC[i] for i in (15, 14, 6, 3, 9, 1)]):
+                out.append(dict(env=None, args=[], ops=ops, wc=wc, show=show))
+    # the encoding of the interpreter's stdout (PYTHONIOENCODING): legacy code pages, with and without the stdout report
+    for enc in ['ascii', 'latin-1', 'cp1252'] + (['utf-8', 'utf-16'] if tier == 'thorough' else []):
+        for wc in (ALL_WC if tier == 'thorough' else [ALL_WC[i] for i in (15, 14, 9, 7)]):
+            out.append(dict(env='1', args=[], ops=[['decorate', None]], wc=wc, ioenc=enc))
     return out
 
 
@@ -430,7 +440,7 @@ def q_ops(ops):
             out.append('OpEnable %s' % q_ostr(arg))
         elif kind == 'disable':
             out.append('OpDisable')
-        elif kind == 'decorate':
+        elif kind in ('decorate', 'decorate_ghost'):
             k += 1
             out.append('OpDecorate (Fn %d)' % k)
         elif kind == 'overwrite':
